@@ -1002,6 +1002,10 @@ type readBack struct {
 // allowDup says that the list deliberately contains an id twice.
 func (w *world) get(ci int, list []ref, allowDup bool, seen map[*cell]readBack) {
 	tgt := target(list)
+	if w.rnd.Intn(10) == 0 { // the options HAP defines for a read; values must be unaffected
+		tgt += "&meta=1&perms=1&type=1&ev=1"
+		run.Count("get_requests_with_meta_perms_type_ev_options", 1)
+	}
 	m, _ := w.do(ci, "GET", tgt, nil)
 	if m == nil {
 		return
@@ -1782,6 +1786,23 @@ func largeUint64Probe(base string) {
 	} else if err == nil {
 		run.Count("observation_uint64_2^53+1_read_altered", 1)
 	}
+	// counter only: a value the application provides through OnValueRemoteGet instead of SetValue
+	ch.SetValue(0)
+	ch.OnValueRemoteGet(func() int { return 4242 })
+	m, err = w.conns[0].Do("GET", fmt.Sprintf("/characteristics?id=%d.%d", acc.ID, ch.ID), "", nil)
+	if err == nil && strings.Contains(string(m.Body), `"value":4242`) {
+		run.Count("observation_remote_get_function_value_read_in_characteristics", 1)
+	} else if err == nil {
+		run.Count("observation_remote_get_function_value_not_read_in_characteristics", 1)
+	}
+	ch.SetValue(7)
+	m, err = w.conns[0].Do("GET", "/accessories", "", nil)
+	if err == nil && strings.Contains(string(m.Body), `"value":4242`) {
+		run.Count("observation_remote_get_function_value_read_in_accessories", 1)
+	} else if err == nil {
+		run.Count("observation_remote_get_function_not_consulted_by_accessories", 1)
+	}
+	ch.OnValueGet(nil)
 	ch.SetValue(0)
 	m, err = w.conns[0].Do("PUT", "/characteristics", refctl.ContentJSON, []byte(fmt.Sprintf(`{"characteristics":[{"aid":%d,"iid":%d,"value":9007199254740993}]}`, acc.ID, ch.ID)))
 	if err == nil {
@@ -1835,16 +1856,16 @@ func main() {
 	var shapes []shape
 	if r.Thorough() {
 		shapes = []shape{
-			{"bridge150x12", 150, 12, 25}, {"bridge150x20", 150, 20, 25},
-			{"single", 1, 0, 25}, {"pair", 2, 0, 25}, {"bridge3", 3, 0, 25}, {"bridge5", 5, 0, 25}, {"bridge10", 10, 0, 25},
-			{"bridge25", 25, 8, 25}, {"bridge50", 50, 6, 25}, {"bridge100", 100, 4, 25},
+			{"bridge150x12", 150, 12, 120}, {"bridge150x20", 150, 20, 80}, {"bridge150x4", 150, 4, 160},
+			{"single", 1, 0, 800}, {"pair", 2, 0, 800}, {"bridge3", 3, 0, 600}, {"bridge5", 5, 0, 600}, {"bridge10", 10, 0, 500},
+			{"bridge25", 25, 8, 400}, {"bridge50", 50, 6, 250}, {"bridge100", 100, 4, 200},
 		}
 	} else {
-		shapes = []shape{{"bridge150x12", 150, 12, 3}, {"single", 1, 0, 3}, {"bridge5", 5, 0, 3}}
+		shapes = []shape{{"bridge150x12", 150, 12, 8}, {"single", 1, 0, 40}, {"pair", 2, 0, 30}, {"bridge5", 5, 0, 30}, {"bridge25", 25, 8, 15}}
 	}
 	var wg sync.WaitGroup
 	chq := make(chan shape)
-	for k := 0; k < 5; k++ {
+	for k := 0; k < 8; k++ {
 		wg.Add(1)
 		go func() {
 			defer wg.Done()
